@@ -59,12 +59,16 @@ TExpress == Ev("Express") /\ (Express(Tr[l].t, Tr[l].defer) \/ (~Tr[l].defer /\ 
 TAwait == Ev("Await") /\ Await(Tr[l].e) /\ PostOk
 TExpressDown == Ev("ExpressDown") /\ ExpressDown(Tr[l].t) /\ PostOk
 TRecvData == Ev("RecvData") /\ ~Hidden /\ RecvDataX(Tr[l].d, Tr[l].env, SeqToSet(Tr[l].x)) /\ PostOk
-TRecvDataHidden == Ev("RecvData") /\ Hidden /\ RecvDataX(Tr[l].d, Tr[l].env, {})
-TValFinish == Ev("ValFinish") /\ (ValFinish(Tr[l].e, Tr[l].v) \/ LateFinish(Tr[l].e, Tr[l].v)) /\ PostOk
+TRecvDataHidden == Ev("RecvData") /\ Hidden /\ RecvDataX(Tr[l].d, Tr[l].env, InFlight)
+\* a validator that answers in the very step in which it is called (the library's pass_all): its verdict follows the
+\* delivery without anything observable in between
+TValFinishHidden == Ev("ValFinish") /\ Hidden /\ ValFinish(Tr[l].e, Tr[l].v)
+TValFinish == Ev("ValFinish") /\ ~Hidden /\ (ValFinish(Tr[l].e, Tr[l].v) \/ LateFinish(Tr[l].e, Tr[l].v)) /\ PostOk
 \* a verdict delivered to nobody (the validator invocation was cancelled with its caller): stutter
 TValNobody == Ev("ValFinish") /\ vrun[Tr[l].e] = 0 /\ UNCHANGED vars /\ PostOk
-TFire == Ev("Fire") /\ Fire /\ PostOk
-TFireNone == Ev("Fire") /\ Due = {} /\ UNCHANGED vars /\ PostOk
+TFire == Ev("Fire") /\ ~Hidden /\ Fire /\ PostOk
+TFireNone == Ev("Fire") /\ ~Hidden /\ Due = {} /\ UNCHANGED vars /\ PostOk
+TFireHidden == Ev("Fire") /\ Hidden /\ (Fire \/ (Due = {} /\ UNCHANGED vars))
 TTick == Ev("Tick") /\ Tick /\ PostOk
 TJump == Ev("Jump") /\ Jump(Tr[l].to) /\ PostOk
 TCancel == Ev("Cancel") /\ Cancel(Tr[l].e) /\ PostOk
@@ -74,7 +78,7 @@ TConnect == Ev("Connect") /\ Connect /\ PostOk
 TRecvNack == Ev("RecvNack") /\ RecvNackX(Tr[l].t, Tr[l].r, Tr[l].env, SeqToSet(Tr[l].x)) /\ PostOk
 TRecvJunk == Ev("RecvJunk") /\ RecvJunk("junk") /\ PostOk
 
-TNext == \/ TExpress \/ TAwait \/ TExpressDown \/ TRecvData \/ TRecvDataHidden \/ TValFinish \/ TValNobody \/ TFire \/ TFireNone
+TNext == \/ TExpress \/ TAwait \/ TExpressDown \/ TRecvData \/ TRecvDataHidden \/ TValFinishHidden \/ TValFinish \/ TValNobody \/ TFire \/ TFireNone \/ TFireHidden
          \/ TTick \/ TJump \/ TCancel \/ TCancelDone \/ TShutdown \/ TConnect \/ TRecvNack \/ TRecvJunk
 TSpec == TInit /\ [][TNext]_tvars
 
